@@ -40,7 +40,7 @@ type VerifBlob = azureBlob
 // VerifBuffer gives the harness access to the unexported buffer.
 type VerifBuffer struct{ b ibuffer }
 
-func VerifNewBuffer(max uint32) *VerifBuffer             { return &VerifBuffer{b: newBuffer(max)} }
+func VerifNewBuffer(max uint32) *VerifBuffer              { return &VerifBuffer{b: newBuffer(max)} }
 func (v *VerifBuffer) Size() uint32                       { return v.b.size() }
 func (v *VerifBuffer) Max() uint32                        { return v.b.max() }
 func (v *VerifBuffer) Top() Operation                     { return v.b.top() }
